@@ -23,9 +23,10 @@ AvInit == [mem |-> BmInit,
            rq |-> <<>>,                        \* outstanding reads: [a, left, be, cells]
            hold |-> FALSE, cmd |-> <<>>,       \* command beat being held against waitrequest
            gapw |-> FALSE,                     \* diagnostic context only: an idle gap inside a write burst has occurred
+           brst |-> FALSE,                     \* diagnostic context only: a burst (burstcount > 1) has been accepted
            dumped |-> {}]
 
-AvCtx(s) == IF s.gapw THEN "after-gap-in-write-burst" ELSE "plain"
+AvCtx(s) == IF s.gapw THEN "after-gap-in-write-burst" ELSE IF s.brst THEN "after-burst" ELSE "plain"
 
 AvBase(cfg, a) == (a - cfg.base) * cfg.ab
 AvCmd(e) == [rd |-> e.rd, wr |-> e.wr, a |-> e.a, bc |-> e.bc, be |-> e.be, d |-> IF e.wr = 1 THEN e.d ELSE <<>>]
@@ -78,7 +79,8 @@ AvStep(cfg, s, e, gap) ==     \* -> [s, bad, tags]
                         !.wl = IF isW THEN (IF first THEN e.bc - 1 ELSE s.wl - 1) ELSE s.wl,
                         !.wa = IF isW THEN wAddr + 1 ELSE s.wa,
                         !.hold = active /\ e.wait = 1, !.cmd = AvCmd(e),
-                        !.gapw = s.gapw \/ (s.wl > 0 /\ (gap \/ e.wr = 0))],
+                        !.gapw = s.gapw \/ (s.wl > 0 /\ (gap \/ e.wr = 0)),
+                        !.brst = s.brst \/ (acc /\ (e.rd = 1 \/ first) /\ e.bc > 1)],
         bad |-> envH \cup envX \cup envR \cup envC \cup badR, tags |-> tags]
   [] e.c = "TIMEOUT" ->
        [s |-> [s EXCEPT !.rq = <<>>, !.wl = 0, !.hold = FALSE],
